@@ -7,6 +7,8 @@ from rulelib import _rv_operands
 from facts import op_int, op_local, op_place
 import pyast
 
+# no reduced-feature configurations: the comparison needs the ONNX registry with every operator feature enabled
+
 EXPLANATION = (
     "Two implementations turn an ONNX node into an rten operator: the Rust ONNX loader (op_registry/onnx_registry.rs) and the "
     "Python converter (rten-convert/converter.py, whose output the .rten loader reads back). Their per-operator attribute "
